@@ -547,6 +547,7 @@ func ruleJSN3(c *Ctx) {
 
 func ruleJSN4(c *Ctx) {
 	p := c.P
+	jsn4WholeInput(c)
 	// named rejections: (function, description, recogniser on an If condition whose taken edge returns an error)
 	type rej struct {
 		fn   string
@@ -795,6 +796,7 @@ func impliesUnary(fn *ssa.Function, v ssa.Value, depth int) bool {
 
 func ruleJSN6(c *Ctx) {
 	p := c.P
+	jsn6NoAliasOfInput(c)
 	for _, name := range []string{"ParseJSONRule", "ParseJSONRuleset", "ParseRule"} {
 		root := p.Func("pkg", name)
 		if root == nil {
@@ -823,6 +825,75 @@ func ruleJSN6(c *Ctx) {
 		}
 		sort.Strings(bad)
 		c.Check(len(bad) == 0, name+" / translation depends only on its input", p.Pos(root.Pos()), "no package-level variable of the module is referenced on the translation path", "the translator references package-level state ("+strings.Join(uniq(bad), "; ")+"): the output of one rule can depend on earlier calls (e.g. a pooled buffer left dirty by a rejected rule)")
+	}
+}
+
+// jsn6NoAliasOfInput: a JSON resource that keeps something between two loads (a cache of its last translation) must not
+// keep the byte slice the underlying resource handed out: that resource may hand out the same backing array again with
+// other content (a bytes resource edited in place, a poller with a reused buffer), and a comparison of "the new data"
+// with "the kept data" then compares the array with itself.
+func jsn6NoAliasOfInput(c *Ctx) {
+	p := c.P
+	for _, typ := range []string{"JSONResource", "JSONResourceBundle"} {
+		fn := p.Method("pkg", typ, "Load")
+		if fn == nil {
+			c.AnchorLost("(*pkg." + typ + ").Load")
+			continue
+		}
+		recv := ssa.Value(receiver(fn))
+		isInput := func(v ssa.Value) bool {
+			ex, ok := v.(*ssa.Extract)
+			if !ok || ex.Index != 0 {
+				return false
+			}
+			call, ok := ex.Tuple.(*ssa.Call)
+			return ok && calleeNameIs(call, "Load")
+		}
+		var aliasOf func(v ssa.Value, depth int) bool
+		aliasOf = func(v ssa.Value, depth int) bool {
+			if depth > 8 {
+				return false
+			}
+			v = unspill(v)
+			if isInput(v) {
+				return true
+			}
+			switch x := v.(type) {
+			case *ssa.Phi:
+				for _, e := range x.Edges {
+					if aliasOf(e, depth+1) {
+						return true
+					}
+				}
+			case *ssa.Slice:
+				return aliasOf(x.X, depth+1)
+			case *ssa.ChangeType:
+				return aliasOf(x.X, depth+1)
+			case *ssa.MakeInterface:
+				return aliasOf(x.X, depth+1)
+			case *ssa.Call:
+				// bytes.TrimSpace and friends return a sub-slice of their argument
+				if callee := x.Call.StaticCallee(); callee != nil && callee.Pkg != nil && callee.Pkg.Pkg.Path() == "bytes" && strings.HasPrefix(callee.Name(), "Trim") && len(x.Call.Args) > 0 {
+					return aliasOf(x.Call.Args[0], depth+1)
+				}
+			}
+			return false
+		}
+		bad := ""
+		nStores := 0
+		for _, b := range fn.Blocks {
+			for _, in := range b.Instrs {
+				f, base, val := fieldStore(in)
+				if f == nil || unspill(base) != recv {
+					continue
+				}
+				nStores++
+				if aliasOf(val, 0) {
+					bad = fmt.Sprintf("field %s keeps the slice the underlying resource returned (%s)", f.Name(), p.InstrPos(in))
+				}
+			}
+		}
+		c.Check(bad == "", typ+".Load / keeps no reference to the bytes the underlying resource handed out", p.Pos(fn.Pos()), fmt.Sprintf("%d stores through the receiver, none of the input slice or a sub-slice of it", nStores), bad+": a second Load after the text changed in the same backing array (same length) compares the array with itself and returns the translation of the old text")
 	}
 }
 
@@ -1100,4 +1171,55 @@ func ruleJSN9(c *Ctx) {
 		}
 		c.Check(bad == "", "pkg."+name+" / a plain string is echoed unchanged", p.Pos(fn.Pos()), "only concatenation (a terminating `;`) is applied", bad+": processing that does not know about string literals alters them (F.S = \"a;b\" split on the semicolon, a trimmed literal, ...)")
 	}
+}
+
+
+// jsn4WholeInput: the JSON text is decoded as a whole. json.Unmarshal refuses anything after the first value;
+// (*json.Decoder).Decode reads one value and leaves the rest unread, so `{rule}{rule}` or `{rule}]` would be accepted
+// as its first rule. A Decode in the translator package has to be followed, on every path to a success return, by a
+// look at what is left (More, Token, another Decode or Buffered on the same decoder).
+func jsn4WholeInput(c *Ctx) {
+	p := c.P
+	nUnmarshal, nDecode := 0, 0
+	for _, fn := range p.ModuleFuncs() {
+		if fnPkgShort(fn) != "pkg" || fn.Blocks == nil {
+			continue
+		}
+		for _, ci := range callsIn(fn) {
+			callee := ci.Common().StaticCallee()
+			if callee == nil || callee.Pkg == nil || callee.Pkg.Pkg.Path() != "encoding/json" {
+				continue
+			}
+			if callee.Name() == "Unmarshal" {
+				nUnmarshal++
+				continue
+			}
+			if callee.Name() != "Decode" || len(ci.Common().Args) < 1 {
+				continue
+			}
+			nDecode++
+			dec := ci.Common().Args[0]
+			t, path := reach(fn, ci.(ssa.Instruction), func(in ssa.Instruction) bool {
+				r, ok := in.(*ssa.Return)
+				return ok && !returnsNonNilError(r)
+			}, func(in ssa.Instruction) bool {
+				c2, ok := in.(ssa.CallInstruction)
+				if !ok || c2.Common().StaticCallee() == nil || len(c2.Common().Args) < 1 || c2.Common().Args[0] != dec {
+					return false
+				}
+				switch c2.Common().StaticCallee().Name() {
+				case "More", "Token", "Decode", "Buffered":
+					return true
+				}
+				return false
+			}, nil)
+			c.Touch(fnName(fn))
+			if t != nil {
+				c.Fail(fnName(fn)+" / a streaming decode is followed by a look at the rest of the input", p.InstrPos(ci), "(*json.Decoder).Decode reads one value and ignores what follows: several rule objects back to back, or a rule followed by a stray `]`, are accepted as the first rule alone instead of being rejected as malformed", pathString(p, path)...)
+			} else {
+				c.OK(fnName(fn)+" / a streaming decode is followed by a look at the rest of the input", p.InstrPos(ci), "More/Token/Decode/Buffered on the same decoder on every path to a success return")
+			}
+		}
+	}
+	c.Check(nUnmarshal+nDecode > 0, "pkg / JSON texts are decoded as a whole", "pkg/JsonResource.go", fmt.Sprintf("%d json.Unmarshal (refuses trailing data), %d streaming decodes examined", nUnmarshal, nDecode), "no JSON decoding call found in the translator package")
 }
